@@ -65,6 +65,13 @@ func c04EnumCases(tier string, seed uint64) []c04Enum {
 			out = append(out, c04Enum{p, c, c})
 		}
 	}
+	// obfs4 (interactive handshake of random length): every single cut at absolute offsets 1..100
+	// and at distances 1..48 from the end of the client handshake (mark + MAC are the last 32 bytes)
+	for o := range c04ObfsParams {
+		for c := 1; c <= 148; c++ {
+			out = append(out, c04Enum{len(c04Params) + o, c, c})
+		}
+	}
 	for p := range c04Params {
 		full := tier == "thorough" || p < 2 || (p-2)%12 == int(seed%12)
 		if !full {
@@ -98,7 +105,7 @@ func TestVerifC04(t *testing.T) {
 		Runs: map[string]int{"quick": 1500, "thorough": 200000},
 		Real: []string{"cmd/application handleNewTCPConn (accumulate-and-retry read loop, MarkActive)", "min / prefix / obfs4 station transports and the matching real client transports (WrapConn produces every flight)", "pkg/station/lib Proxy / halfPipe relay", "RegistrationManager, ingest pipeline (HandleRegUpdates), RemoveOldRegistrations"},
 		Stub: []string{"TCP to the phantom (simnet: cut points, pacing)", "covert host (echo actor behind the dial seam)", "liveness table, detector recorder, ZMQ", "handleNewConn's accept / original-destination glue"},
-		Rule: "enumerated: for min (2 parameter sets) and prefix (10 ids x 3 flush policies x 2 port modes) every single cut at offsets 1..89 of flight+data, and every pair of cuts for min and for a seed-rotated twelfth of the prefix sets (thorough: all sets): complete for the stated bound; random: 1-3 concurrent clients (min, prefix, obfs4), k-cut segmentations incl. cuts counted from the end of the obfs4 handshake, pacing < 4.5 s in total, early data 0..64 KiB in the same segments as the tag, 0-3 other registrations on the same phantom. " +
+		Rule: "enumerated: for min (2 parameter sets) and prefix (10 ids x 3 flush policies x 2 port modes) every single cut at offsets 1..89 of flight+data, for obfs4 every single cut at offsets 1..100 and at 1..48 bytes before the end of the real client handshake, and every pair of cuts for min and for a seed-rotated twelfth of the prefix sets (thorough: all sets): complete for the stated bound; random: 1-3 concurrent clients (min, prefix, obfs4), k-cut segmentations incl. cuts counted from the end of the obfs4 handshake, pacing < 4.5 s in total, early data 0..64 KiB in the same segments as the tag, 0-3 other registrations on the same phantom. " +
 			"non-trivial = the connection was recognised and relayed; distinct = (parameter set, cuts, early-data size, co-registrations, schedule) signatures",
 		Assume: []string{"harness test files built with //go:debug asynctimerchan=0", "total pacing is kept below 4.5 s so the 5-10 s classification deadline cannot legitimately fire"},
 	})
@@ -142,10 +149,25 @@ func c04Scenario(r *sim.Run) {
 	var sess []*c04Session
 	others := 0
 	if tp.Choose("mode", 2) == 1 {
-		p := c04Params[tp.Choose("paramset", len(c04Params))]
-		c1 := tp.Choose("cut1", c04MaxCut+1)
-		c2 := tp.Choose("cut2", c04MaxCut+1)
-		se := &c04Session{p: p, cuts: []int{c1, c2}}
+		pi := tp.Choose("paramset", len(c04Params)+len(c04ObfsParams))
+		c1 := tp.Choose("cut1", 150)
+		c2 := tp.Choose("cut2", 150)
+		var p c04Param
+		se := &c04Session{}
+		if pi < len(c04Params) {
+			p = c04Params[pi]
+			se.cuts = []int{c1, c2}
+		} else {
+			p = c04ObfsParams[pi-len(c04Params)]
+			for _, c := range []int{c1, c2} {
+				if c > 100 {
+					se.tail = append(se.tail, c-100)
+				} else if c > 0 {
+					se.cuts = append(se.cuts, c)
+				}
+			}
+		}
+		se.p = p
 		se.data = c04Data(0, []int{13, 1, 4096}[tp.Choose("early", 3)])
 		sess = append(sess, se)
 		others = tp.Choose("others", 3)
